@@ -72,6 +72,10 @@ def gen_restraints(rng, cls, nf, nm):
     return sorted(pairs)
 
 
+# longest trace kept of one run (steps); a healthy run of the largest budget needs a small fraction of it
+STEP_CAP = 150000
+
+
 def run_run(ctx, case):
     import gaddlemaps
     i = case['i']
@@ -142,12 +146,19 @@ def run_run(ctx, case):
     width = float(rng.uniform(0.1, 0.8)) * unit
     seed = ctx.libseed('run', i)
     np.random.seed(seed)
-    tracer = mctrace.Tracer(n_steps=budget)
+    tracer = mctrace.Tracer(n_steps=budget, max_steps=STEP_CAP)
+    cut = False
     w = {'n_mobile': nm, 'n_fixed': nf, 'unit': unit, 'types': types, 'budget': budget, 'restraints': restr[:10], 'seed': seed}
     try:
         with tracer.recording():
             returned = gaddlemaps._backend.minimize_molecules(fixed, initial.copy(), initial.mean(axis=0), sigma, budget,
                                                               restr, bonds, width, types)
+    except mctrace.TraceCut:
+        # the search kept finding new lowest measures for STEP_CAP steps (rounding-level improvements on a problem whose
+        # measure hardly depends on the enabled moves): the recorder stops it; everything recorded is still judged
+        cut, returned = True, None
+        ctx.count('runs_cut_at_step_cap')
+        ctx.hit('run:cut-at-step-cap')
     except mctrace.RanPastBudget as exc:
         ctx.count('evaluations')
         ctx.monitor('trace_checked')
@@ -157,7 +168,7 @@ def run_run(ctx, case):
         ctx.violation(f'minimize-raises:{type(exc).__name__}', str(exc)[:200], witness=w)
         return
     ctx.count('evaluations')
-    problems, stats = mctrace.check_trace(tracer.events, initial, budget, types, returned)
+    problems, stats = mctrace.check_trace(tracer.events, initial, budget, types, returned, cut=cut)
     if problems and problems[0][0] == 'trace-empty':
         ctx.inconclusive_because('the Monte-Carlo loop produced no observable events (helpers no longer resolved through module names?)')
         return
